@@ -210,6 +210,17 @@ func vMutations(own, other, foreign []vNV, csrfName string, dense bool, r *rand.
 			for _, t2 := range []string{"0" + a[1], "+" + a[1], a[1] + "0", a[1][1:], " " + a[1], a[1] + " "} {
 				ms = append(ms, vMut{"timestamp", []vNV{{own[0].n, a[0] + "|" + t2 + "|" + a[2]}}})
 			}
+			// two simultaneous edits: the signature cut to a prefix (or removed) AND the value or timestamp altered
+			for _, cut := range []int{0, 1, 4, 8, len(a[2]) / 2, len(a[2]) - 4, len(a[2]) - 1} {
+				if cut < 0 || cut > len(a[2]) {
+					continue
+				}
+				sig := a[2][:cut]
+				ms = append(ms, vMut{"sigcut+value", []vNV{{own[0].n, b[0] + "|" + a[1] + "|" + sig}}})
+				ms = append(ms, vMut{"sigcut+value", []vNV{{own[0].n, vFlip(a[0], len(a[0])/2) + "|" + a[1] + "|" + sig}}})
+				ms = append(ms, vMut{"sigcut+value", []vNV{{own[0].n, vFlip(a[0], len(a[0])-2) + "|" + a[1] + "|" + sig}}})
+				ms = append(ms, vMut{"sigcut+timestamp", []vNV{{own[0].n, a[0] + "|" + strconv.FormatInt(ts+60, 10) + "|" + sig}}})
+			}
 			for k := 1; k <= 8 && k < len(a[1]); k++ {
 				ms = append(ms, vMut{"digit-shift", []vNV{{own[0].n, a[0] + a[1][:k] + "|" + a[1][k:] + "|" + a[2]}}})
 				if len(a[0]) > k {
